@@ -41,6 +41,12 @@ pub struct Step {
     /// leave the writer exactly as the previous request left it (same configuration as the previous step)
     #[serde(default)]
     pub same_config: bool,
+    /// the principal address of this step lies in the extra mapping (which every parked stack points into)
+    #[serde(default)]
+    pub principal_in_extra: bool,
+    /// change the target before this dump: unmap the extra mapping (happens once)
+    #[serde(default)]
+    pub unmap_extra: bool,
 }
 
 #[derive(Debug, Clone, PartialEq, Eq, Hash, Serialize, Deserialize)]
@@ -70,6 +76,11 @@ pub fn check(c: &Case) -> Verdict {
     for i in 0..(c.exiters % 3) {
         let id = b.add_thread(K_EXITER, Some(format!("x{i}").into_bytes()), 0, 950 + i as u64);
         exiter_ids.push(id);
+    }
+    let (extra_id, extra) = b.add_anon(2, 1, 0xE7);
+    for st in &stacks {
+        // every parked stack also references the extra mapping
+        b.spec.pokes.push((st.base + 0x1000 + 24 * 6 + 64, extra + 0x800));
     }
     let (_, appmap) = b.add_anon(4, 3, 0xA44);
     let (_, ipmap) = b.add_anon(1, 5, 0x1b);
@@ -102,6 +113,7 @@ pub fn check(c: &Case) -> Verdict {
         }
         o.principal = match s.principal {
             None => None,
+            Some(_) if s.principal_in_extra => Some(extra + 0x1010),
             Some(None) => Some(0x3000_0000_0000),
             Some(Some(k)) => Some(stacks[pick(k, stacks.len())].base + 8),
         };
@@ -116,7 +128,7 @@ pub fn check(c: &Case) -> Verdict {
         let mut e = s.clone();
         if s.same_config {
             if let Some(p) = eff.last() {
-                e = Step { cue: s.cue, protect: s.protect, fail: s.fail.filter(|f| f.0 == 1), same_config: true, ..p.clone() };
+                e = Step { cue: s.cue, protect: s.protect, unmap_extra: s.unmap_extra, fail: s.fail.filter(|f| f.0 == 1), same_config: true, ..p.clone() };
                 if let Some((2, _)) = p.fail {
                     e.fail = p.fail;
                 }
@@ -129,6 +141,7 @@ pub fn check(c: &Case) -> Verdict {
     let mut w = make_writer(pid, &opts_of(first));
     let mut classes = vec![];
     let mut changed = false;
+    let mut extra_unmapped = false;
     for (k, s) in c.steps.iter().enumerate() {
         if let Some(x) = s.cue {
             if !exiter_ids.is_empty() {
@@ -144,6 +157,16 @@ pub fn check(c: &Case) -> Verdict {
                 if !t.wait_settled(&alive_spec) {
                     return Verdict::Inconclusive("main thread did not return to its command loop".into());
                 }
+            }
+        }
+        if s.unmap_extra && !extra_unmapped {
+            if t.cmd(&format!("unmap {extra_id}")) {
+                extra_unmapped = true;
+                changed = true;
+                classes.push("extra-mapping-unmapped".to_string());
+            }
+            if !t.wait_settled(&alive_spec) {
+                return Verdict::Inconclusive("main thread did not return to its command loop".into());
             }
         }
         if let Some(p) = s.protect {
@@ -269,9 +292,9 @@ fn step_strategy() -> impl Strategy<Value = Step> {
         proptest::option::weighted(0.3, any::<u16>()),
         proptest::bool::weighted(0.2),
         proptest::option::weighted(0.3, (1u8..3, any::<u8>())),
-        (proptest::option::weighted(0.35, any::<bool>()), proptest::bool::weighted(0.4)),
+        (proptest::option::weighted(0.35, any::<bool>()), proptest::bool::weighted(0.4), proptest::bool::weighted(0.4), proptest::bool::weighted(0.2)),
     )
-        .prop_map(|(blamed, crash, crash_rip_in_map, app, skip, principal, sanitize, cue, blamed_foreign, fail, (protect, same_config))| Step { blamed, crash, crash_rip_in_map, app, skip, principal, sanitize, cue, blamed_foreign, fail, protect, same_config })
+        .prop_map(|(blamed, crash, crash_rip_in_map, app, skip, principal, sanitize, cue, blamed_foreign, fail, (protect, same_config, principal_in_extra, unmap_extra))| Step { blamed, crash, crash_rip_in_map, app, skip, principal, sanitize, cue, blamed_foreign, fail, protect, same_config, principal_in_extra, unmap_extra })
 }
 
 pub fn run(ctx: &mut LaneCtx) {
